@@ -2,7 +2,7 @@ CONSTANTS
   Mutant = "none"
   MaxLen = 2
   Family = "tables"
-  Deep = FALSE
+  Deep = TRUE
   Alpha = "full"
   Cases <- Tables
 INIT MCInit
